@@ -13,7 +13,9 @@ TRUSTED = [
     "Lean 4 kernel; axioms allowed: propext, Classical.choice, Quot.sound (audited by #print axioms on every run)",
     "hand-written model Nice/Model/Timer.lean of stun/usages/timer.c, tied by the kern_drv differential stream (virtual clock via interposed clock_gettime)",
     "clock modelled as one monotonic microsecond counter split as tv_sec/tv_usec; Windows and gettimeofday fallback paths not modelled",
-    "agent-level claim (a black-holed check is abandoned after N transmissions) is decided in the C01/C19 simulation stream, not by these theorems",
+    "agent-level claim (a black-holed check is abandoned after N transmissions): observed on real agents in simulation with the "
+    "A->B direction (or both) black-holed: per transaction <= N transmissions, a superseded transaction is never sent again, the "
+    "last transaction of a fully black-holed pair is sent exactly N times; not proved",
 ]
 
 
@@ -120,6 +122,68 @@ def sessions_for(tier, rng):
     return S, meta
 
 
+def blackhole_scenario(args):
+    """agent level: A's packets to B are black-holed for the whole session (B's still reach A, so B's checks trigger new
+    transactions on A's pairs).  On every black-holed pair: no transaction is sent more than N times, a transaction that
+    has been superseded by a newer one on the same pair is never transmitted again, and the last transaction of a pair
+    that had time to run out was transmitted exactly N times."""
+    exe, seed, tier = args
+    import random, re
+    from checks import simcommon as sc
+    from lib import simlib
+    rng = random.Random(f"C19sim/{seed}")
+    cfg = sc.base_config(rng)
+    N = rng.choice([2, 3, 3, 4, 5])
+    cfg.update(rc=N, rto=rng.choice([100, 200, 500]), loss=0, dup=0, lat=rng.choice([1, 5, 30]), anyorder=False,
+               ctrlA=rng.randint(0, 1), ctrlB=rng.randint(0, 1))
+    one_way = rng.random() < 0.7
+    s = None
+    bad = []
+    npairs = 0
+    try:
+        s = sc.start_session(exe, seed, cfg)
+        s.op("net blackout A B 0 99999999")
+        if not one_way:
+            s.op("net blackout B A 0 99999999")
+        steps = sc.signalling_steps(rng, cfg)
+        sc.deliver_signalling(s, rng, steps)
+        total = cfg["rto"] * (2 ** (N - 1) - 1) + cfg["rto"] * (2 ** (N - 2) if N > 1 else 1)
+        s.op(f"run {20 * total + 30000}")
+        t_end = int(s.op("stats")[1].split()[1].split("=")[1])
+        pairs = {}
+        for e in s.events():
+            m = re.match(r"t=(\d+) tx A (\S+)->(\S+) len=\d+ stun class=0 method=1 .*txid=(\w+)", e)
+            if m:
+                pairs.setdefault((m.group(2), m.group(3)), []).append((int(m.group(1)), m.group(4)))
+        for pr, seq in pairs.items():
+            npairs += 1
+            first, count, order = {}, {}, []
+            for t, x in seq:
+                if x not in first:
+                    first[x] = t; order.append(x)
+                count[x] = count.get(x, 0) + 1
+                newer = [y for y in order if first[y] > first[x]]
+                if newer and t > first[newer[0]]:
+                    bad.append(("superseded-retransmitted", f"pair {pr[0]}->{pr[1]}: transaction {x[:12]}.. transmitted again at t={t} after the "
+                                                            f"newer {newer[0][:12]}.. had started at t={first[newer[0]]}"))
+                    break
+            for x, c in count.items():
+                if c > N:
+                    bad.append(("too-many-transmissions", f"pair {pr[0]}->{pr[1]}: transaction {x[:12]}.. transmitted {c} times, limit {N}"))
+            last = order[-1]
+            if t_end - first[last] > 2 * total + 2000 and count[last] != N and one_way is False:
+                bad.append(("not-exactly-N", f"pair {pr[0]}->{pr[1]}: the last transaction {last[:12]}.. on a fully black-holed pair was "
+                                             f"transmitted {count[last]} times, configured {N}"))
+            if bad:
+                break
+        return dict(seed=seed, bad=bad[:3], script=s.script, npairs=npairs, N=N, one_way=one_way)
+    except simlib.SimDied as e:
+        return dict(seed=seed, bad=[("crash", str(e)[-800:])], script=s.script if s else [], npairs=npairs, N=N, one_way=one_way)
+    finally:
+        if s:
+            s.close()
+
+
 def run(tier, seed):
     chk = vlib.Check("C19", tier, seed)
     chk.cov["trusted_base"] = TRUSTED
@@ -166,6 +230,20 @@ def run(tier, seed):
                 for x in (o or []):
                     res_kinds[x.split()[0]] = res_kinds.get(x.split()[0], 0) + 1
             chk.cov["generator_distribution"] = {"patterns": dist, "result_kinds": res_kinds, "corpus": len(corpus)}
+            # agent level: black-holed pairs of real agents in simulation
+            from checks import simcommon as sc
+            from lib import simlib
+            ok2, sexe, slog = sc.build_sim()
+            if ok2:
+                sres = simlib.run_parallel(blackhole_scenario, [(sexe, seed * 100000 + i, tier) for i in range(60 if tier == "quick" else 1200)])
+                for r in sres:
+                    for kind, what in r["bad"]:
+                        ofail.append({"why": f"{kind}: {what}", "session": r["script"]})
+                chk.cov["generator_distribution"]["blackholed_pairs_inspected"] = sum(r["npairs"] for r in sres)
+                chk.cov["generator_distribution"]["blackhole_sessions"] = {"one_way": sum(1 for r in sres if r["one_way"]),
+                                                                            "both_ways": sum(1 for r in sres if not r["one_way"])}
+            else:
+                chk.note("sim harness build failed: " + slog[-800:])
     return conclude(chk, st, diverged, ofail, "kern_drv:timer")
 
 
